@@ -45,10 +45,12 @@ ASSUMPTIONS = [
 ]
 BOUNDS = {
     'quick': 'argument tuples: corpus star of 2 values per parameter; omitted sets: none, all, every single '
-             'default omitted, every single default supplied; arguments bound as variables',
+             'default omitted, every single default supplied; arguments bound as variables; '
+             'the unomitted groups of the first 2 tuples also with variables and source-text arguments on engines with yaql.memoryQuota 50 (exceeded by the string arguments, which are widened by 10 characters here, and by [1, 2], not by an expression object), 56 and 120 bytes',
     'thorough': 'argument tuples: corpus star of 3 values per parameter; omitted sets: every subset of the defaulted '
                 'parameters (definitions with more than 8 defaults - characters - subsets of size <= 2 or >= d-1, and '
-                'all 2^d subsets on the base tuple); arguments bound as variables and as source text',
+                'all 2^d subsets on the base tuple); arguments bound as variables and as source text; '
+                'the unomitted groups of the first 4 tuples on engines with yaql.memoryQuota 48..63, 120 and 500 bytes',
 }
 
 ENVIRONMENT = ('now', 'random', 'localtz')
@@ -82,6 +84,7 @@ def error_class(e):
 
 
 _state = {}
+_opts = [C.OPTIONS]          # engine options of the spellings being compared (job_quota replaces them)
 
 
 def setup():
@@ -110,12 +113,12 @@ def setup():
 def observe(rec, text, variables, extra_runs=0):
     """Evaluate one spelling: ((kind, canonical value | error class), runs of rec, NoValue seen by a payload)."""
     s = setup()
-    yq.parse(text, C.OPTIONS, True)          # a text the grammar rejects is a harness error, not an outcome
+    yq.parse(text, _opts[0], True)          # a text the grammar rejects is a harness error, not an outcome
     taps = s['taps']
     before = taps[rec.index]
     s['novalue'][0] = 0
     try:
-        v = C.evaluate(text, variables)
+        v = C.evaluate(text, variables, options=_opts[0])
         out = ('v', ('env', type(v).__name__) if rec.name in ENVIRONMENT else canon(v))
     except Exception as e:
         out = ('e', error_class(e))
@@ -206,6 +209,8 @@ def spellings(rec, args, supplied, argform):
     seen = set()
     moved = mirror_positions(rec)
     for form in forms_of(rec, args, supplied):
+        if form in ('call', 'mcall') and _opts[0] is not C.OPTIONS:
+            continue        # call() carries the arguments in a list and a dictionary that are values charged on their own
         for k in range(n, -1, -1):
             if args.var and k != n:
                 continue
@@ -284,8 +289,11 @@ def tuples_of(rec, tier):
 
 
 def case_of(rec, args, omitted, argform):
-    return {'def': rec.ident, 'pos': [v.label for v in args.pos], 'var': [v.label for v in args.var],
-            'kw': {k: v.label for k, v in args.kw.items()}, 'omitted': list(omitted), 'argform': argform}
+    out = {'def': rec.ident, 'pos': [v.label for v in args.pos], 'var': [v.label for v in args.var],
+           'kw': {k: v.label for k, v in args.kw.items()}, 'omitted': list(omitted), 'argform': argform}
+    if _opts[0] is not C.OPTIONS:
+        out['options'] = dict(_opts[0])
+    return out
 
 
 # ---------------------------------------------------------------------------
@@ -307,7 +315,7 @@ def check_group(res, rec, args, omitted, argform, ti):
             res.outcomes['ood: keyword spelling shared with a mirrored overload'] += 1
             continue
         res.case((rec.ident, tuple(case['pos']), tuple(case['var']), tuple(sorted(case['kw'])),
-                  tuple(omitted), text))
+                  tuple(omitted), text) + ((tuple(sorted(case['options'].items())),) if 'options' in case else ()))
         out, runs, _ = observe(rec, text, variables(args, argform), extra_runs(rec, form))
         res.evaluations += 1
         res.extra.setdefault('spelling_classes', collections.Counter())[cls] += 1
@@ -319,7 +327,7 @@ def check_group(res, rec, args, omitted, argform, ti):
         # the property demands equal results; the run count of the definition under test is compared only when
         # it ran in both spellings (a more specific sibling overload may legitimately serve one spelling)
         if out != ref[2] or (runs and ref[3] and runs != ref[3]):
-            res.fail('spellings-disagree def=%s spelling=%s' % (rec.ident, cls),
+            res.fail('spellings-disagree def=%s spelling=%s%s' % (rec.ident, cls, ' under a memory quota' if 'options' in case else ''),
                      dict(case, kind='group', a=ref[1], fa=ref[4], b=text, fb=form),
                      '%s -> %r runs=%d   but   %s -> %r runs=%d' % (ref[1], ref[2], ref[3], text, out, runs))
     if len(sp) >= 2 and ran:
@@ -476,6 +484,52 @@ def job_units(tier, units):
 
 
 # ---------------------------------------------------------------------------
+# the same groups on an engine with a memory quota small enough that some corpus values exceed it: whether an
+# argument is charged against the quota must not depend on how it was written (literal in the argument list,
+# receiver of a method call, element of call()'s args / kwargs, variable)
+# sizes (CPython 3.12, bytes): expression objects 48, 'ab' 43, 'ab' + 10 characters 53, () 40, (1, 2) 56, small
+# integers 28: a quota of 50 is exceeded by a widened string literal and by (1, 2) but not by the expression object
+# every method call hands to `.`.  String arguments are widened by 10 characters in these jobs (the oracle is
+# differential: every spelling of the group gets the same widened value).
+WIDE = 'x' * 10
+
+
+def widen(v):
+    if v.make is None or v.label.endswith('+wide'):
+        return v
+    value = v.make()
+    if not isinstance(value, str) or v.text is None or not (v.text.startswith("'") and v.text.endswith("'")):
+        return v
+    return C.Value(v.label + '+wide', lambda: value + WIDE, v.text[:-1] + WIDE + "'")
+
+
+def widen_args(args):
+    return C.Args([widen(v) for v in args.pos], [widen(v) for v in args.var], {k: widen(v) for k, v in args.kw.items()})
+
+
+QUOTAS_Q = (50, 56, 120)
+QUOTAS_T = tuple(range(48, 64)) + (120, 500)
+
+
+def job_quota(tier, units, quota):
+    res = Result()
+    s = setup()
+    _opts[0] = dict(C.OPTIONS, **{'yaql.memoryQuota': quota})
+    try:
+        for ident in units:
+            rec = s['by_ident'][ident]
+            for ti, args in enumerate(tuples_of(rec, tier)[:2 if tier == 'quick' else 4]):
+                args = widen_args(args)
+                for argform in ('var', 'text'):
+                    if argform == 'text' and all(v.make is None or v.text is None for v in args.pos + args.var):
+                        continue
+                    check_group(res, rec, args, (), argform, ti + 1)
+    finally:
+        _opts[0] = C.OPTIONS
+    return res
+
+
+# ---------------------------------------------------------------------------
 # a second naming convention in the same process (signatures are configurations: the keyword names
 # a caller uses are the convention-translated ones of *his* context, whatever else the process built)
 # ---------------------------------------------------------------------------
@@ -590,6 +644,10 @@ def jobs(tier, seed):
         b[0] += u[0]
         b[1].append(u[1:])
     out = [('units-%02d' % i, 'job_units', (tier, b[1])) for i, b in enumerate(bins) if b[1]]
+    idents = [rec.ident for rec in C.definitions()]
+    for quota in (QUOTAS_Q if tier == 'quick' else QUOTAS_T):
+        for i in range(8):
+            out.append(('quota-%d-%d' % (quota, i), 'job_quota', (tier, idents[i::8], quota)))
     out.append(('conv-camel-first', 'job_conventions', ('camel-first',)))
     out.append(('conv-python-first', 'job_conventions', ('python-first',)))
     return out
@@ -606,6 +664,8 @@ def finish(total, tier):
 # ---------------------------------------------------------------------------
 def _args_from(rec, case):
     def find(p, label):
+        if label.endswith('+wide'):
+            return widen(find(p, label[:-5]))
         for v in C.values_for(p, rec):
             if v.label == label:
                 return v
@@ -624,6 +684,7 @@ def replay(case):
     rec = s['by_ident'][case['def']]
     args = _args_from(rec, case)
     argform = case['argform']
+    _opts[0] = dict(case['options']) if case.get('options') else C.OPTIONS
 
     def run(text, form):
         vs = variables(args, argform)
